@@ -1213,30 +1213,37 @@ impl<'a> TLVSequenceTLVIter<'a> {
     }
 
     fn try_next(&mut self) -> Result<Option<TLV<'a>>, Error> {
-        let current = self.seq.current()?;
-        if current.is_empty() {
+        if self.seq.0.is_empty() {
             return Ok(None);
         }
 
-        self.advance()?;
+        let control = self.seq.control()?;
 
-        Ok(Some(TLV::new(current.tag()?, current.value()?)))
-    }
+        if control.value_type.is_container_end() {
+            control.confirm_container_end()?;
 
-    fn advance(&mut self) -> Result<(), Error> {
-        if self.nesting > 0 || !self.seq.0.is_empty() && !self.seq.control()?.is_container_end() {
+            if self.nesting == 0 {
+                // The end of the container whose elements this sequence represents
+                return Ok(None);
+            }
+
+            // The end of a nested container
+            self.nesting -= 1;
             self.seq = self.seq.next_enter()?;
 
-            let control = self.seq.control()?;
-
-            if control.is_container_start() {
-                self.nesting += 1;
-            } else if control.is_container_end() {
-                self.nesting -= 1;
-            }
+            return Ok(Some(TLV::new(TLVTag::Anonymous, TLVValue::EndCnt)));
         }
 
-        Ok(())
+        let current = TLVElement::new(self.seq.0);
+        let tlv = TLV::new(current.tag()?, current.value()?);
+
+        self.seq = self.seq.next_enter()?;
+
+        if control.is_container_start() {
+            self.nesting += 1;
+        }
+
+        Ok(Some(tlv))
     }
 }
 
@@ -1244,7 +1251,15 @@ impl<'a> Iterator for TLVSequenceTLVIter<'a> {
     type Item = Result<TLV<'a>, Error>;
 
     fn next(&mut self) -> Option<Self::Item> {
-        self.try_next().transpose()
+        let item = self.try_next().transpose();
+
+        if matches!(item, Some(Err(_))) {
+            // The error is reported once; the iterator is empty afterwards
+            self.seq = TLVSequence::EMPTY;
+            self.nesting = 0;
+        }
+
+        item
     }
 }
 
